@@ -29,6 +29,7 @@ def main():
             sel.append(m)
     env = dict(os.environ, GOFLAGS='-mod=mod', GOPROXY='off', GOSUMDB='off', GOTOOLCHAIN='local')
     results = []
+    nrep = 0
     for m in sel:
         tmp = tempfile.mkdtemp(prefix='verifmut-')
         try:
@@ -55,7 +56,7 @@ def main():
             e = dict(env, VERIF_REPO=repo, VERIF_DIR=out)
             t0 = time.time()
             t = m['tier'] or tier
-            r = subprocess.run([os.path.join(VERIF, 'run.sh'), m['prop'], t], env=e, capture_output=True, text=True, cwd=VERIF)
+            r = subprocess.run([os.path.join(VERIF, 'run.sh'), m['prop'], t], env=e, capture_output=True, text=True, errors='replace', cwd=VERIF)
             dt = time.time() - t0
             first = ''
             lines = r.stdout.splitlines()
@@ -73,7 +74,8 @@ def main():
             subprocess.run(['git', '-C', '/repo', 'worktree', 'remove', '--force', os.path.join(tmp, 'go-internal')], capture_output=True)
             shutil.rmtree(tmp, ignore_errors=True)
             subprocess.run(['git', '-C', '/repo', 'worktree', 'prune'])
-            report(results[-1], tier)
+            if len(results) > nrep:
+                report(results[-1], tier); nrep = len(results)
     bad = [r for r in results if r[1] != 'CAUGHT']
     print('%d mutants, %d caught, %d not' % (len(results), len(results) - len(bad), len(bad)))
 
